@@ -1,8 +1,8 @@
 #!/bin/bash
-# tools/seed_matrix.sh [seed dirs...] : for every stored seeded change that applies to /repo's HEAD,
-# run the quick check of its own property (and the other checks meta.json names) against it and
-# record exit codes in seeded/matrix.txt. Evidence files are overwritten by these runs; run
-# tools/run_all.sh quick afterwards.
+# tools/seed_matrix.sh [seed dirs...] : for every stored seeded change that applies to /repo's HEAD
+# (patch.diff, or a patch-rebased-*.diff next to it), run the quick check of its own property and
+# the other checks meta.json names against it and record the exit codes in seeded/matrix.txt
+# (1 = reported). Evidence files are overwritten by these runs; run tools/run_all.sh quick afterwards.
 set -u
 cd "$(dirname "$0")/.."
 out=seeded/matrix.txt
@@ -10,9 +10,13 @@ out=seeded/matrix.txt
 for d in ${@:-seeded/C*}; do d=$(realpath $d)
     id=$(basename $d)
     [ -f $d/patch.diff ] || continue
-    if ! git -C /repo apply --check $d/patch.diff 2>/dev/null; then echo "$id patch-does-not-apply-to-HEAD" >> $out; continue; fi
-    checks=$(python3 -c "import json,sys; m=json.load(open('$d/meta.json')); print(' '.join(m.get('caught_by_quick_checks') or [m['property']]))")
-    res=$(tools/try_seed.sh $d/patch.diff $checks 2>&1 | grep -a '^== ' | sed 's/^== \(C[0-9]*\) exit=\([0-9]*\).*/\1=\2/' | tr '\n' ' ')
-    echo "$id $res" >> $out
+    patch=""
+    for p in $d/patch.diff $d/patch-rebased-*.diff; do
+        [ -f "$p" ] && git -C /repo apply --check $p 2>/dev/null && { patch=$p; break; }
+    done
+    if [ -z "$patch" ]; then echo "$id patch-does-not-apply-to-HEAD" >> $out; continue; fi
+    checks=$(python3 -c "import json,sys; m=json.load(open('$d/meta.json')); l=[m['property']]+[c for c in (m.get('caught_by_quick_checks') or []) if c!=m['property']]; print(' '.join(l))")
+    res=$(tools/try_seed.sh $patch $checks 2>&1 | grep -a '^== ' | sed 's/^== \(C[0-9]*\) exit=\([0-9]*\).*/\1=\2/' | tr '\n' ' ')
+    echo "$id $res$( [ $patch != $d/patch.diff ] && echo "(rebased patch)")" >> $out
 done
 echo "HEAD $(git -C /repo rev-parse --short HEAD)" >> $out
